@@ -62,3 +62,75 @@ def gen_c10(seed, count):
 
 
 PYGEN = {'py_c10': gen_c10}
+
+
+def gen_c01(seed, count):
+    """packets left half written (short write, then the future dropped) with something else becoming due meanwhile:
+    keep-alive PINGREQ, owed acks, new requests, disconnect — then the connection is driven on with tiny writes"""
+    out = []
+    for idx in range(count):
+        r = random.Random((seed << 20) ^ (idx + 7919))
+        ka = r.choice([1, 1, 2, 2, 5, 10, 0])
+        k_ms = ka * 1000
+        i_ms = k_ms - _lead(k_ms)
+        c = Case(rx=64, tx=r.choice([128, 256]), ka=ka)
+        c.connect(connack(0, 0, []))
+        c.ev(*([(0, 1000)] * 5))
+        # optionally some inbound QoS 2 state so that PUBREL/PUBCOMP traffic exists
+        n_partial = r.randint(1, 3)
+        for _ in range(n_partial):
+            kind = r.random()
+            if kind < 0.5:
+                c.publish(b'a/b', b'p' * r.randint(0, 12), qos=r.choice([1, 2]))
+            elif kind < 0.8:
+                c.subscribe(((b't/' + bytes([97 + r.randint(0, 5)]), r.randint(0, 2)),))
+            else:
+                c.unsubscribe((b'u',))
+            c.ev((0, r.randint(1, 6)))
+            if r.random() < 0.8:
+                c.ev((3, 0))
+            else:
+                c.ev((0, r.randint(1, 3)), (3, 0))
+            adv = r.choice([0, 0, max(i_ms - 1, 0), i_ms, i_ms + 1, k_ms, 20000])
+            if adv:
+                c.advance(adv)
+            x = r.random()
+            if x < 0.15:
+                c.feed(publish(1, r.randint(1, 5), b'in', b'q'), 0)
+            elif x < 0.25:
+                c.feed(publish(2, r.randint(1, 5), b'in', b'q'), 0)
+            elif x < 0.3:
+                c.feed(PINGRESP, 0)
+            y = r.random()
+            if y < 0.5:
+                c.poll()
+            elif y < 0.6:
+                c.drive()
+            elif y < 0.7:
+                c.publish(b'z', b'0', qos=0)
+            elif y < 0.8:
+                c.publish(b'z', b'1', qos=1)
+            elif y < 0.85:
+                c.recv()
+            elif y < 0.9:
+                c.subscribe()
+            else:
+                c.poll(2)
+            for _ in range(r.randint(2, 10)):
+                z = r.random()
+                if z < 0.55:
+                    c.ev((0, r.choice([1, 1, 2, 3, 5])))
+                elif z < 0.9:
+                    c.ev((0, 1000))
+                else:
+                    c.ev((3, 0))
+        if r.random() < 0.5:
+            c.broker(1)
+        c.poll(r.randint(1, 3))
+        if r.random() < 0.15:
+            c.disconnect()
+        out.append(c.line())
+    return out
+
+
+PYGEN['py_c01'] = gen_c01
